@@ -316,6 +316,14 @@ def shard(ctx, payload):
                         for mk in marks_:
                             args.append((gs, age, sp_, mk))
             ctx.label('tyrving-caller-spellings', len(spell))
+            # the age in its other numeric carriers: floats with and without a fraction (an age in years and months), at the
+            # first, a middle and the last age class - whichever class one language takes, the other takes the same
+            for age in (ages[0], mid_age, ages[-1]):
+                for frac in (0.0, 0.25, 0.5, 0.75, 0.9, -0.5):
+                    c = cs[rng.randrange(len(cs))] if cs else 1000
+                    for mk in (centi_float(c), fmt2(c), '%d.%d' % (c // 100, (c % 100) // 10)):
+                        args.append((g, age + frac, ev, mk))
+            ctx.label('tyrving-fractional-ages')
             args += [(g, ages[0] - 1, ev, '10.00'), (g, ages[-1] + 1, ev, '10.00'), (g.lower(), ages[0], ev.lower(), '10.00'),
                      ('X', ages[0], ev, '10.00'), (g, ages[0], 'MAR', '10.00'), (g, str(ages[0]), ev, '10.00')]
             run_batch('tyrving', args, lambda a: isinstance(a[3], str) and (athlib.is_hand_timing(a[3]) or ':' in a[3] or ',' in a[3]))
